@@ -311,11 +311,16 @@ Definition framing_eqb (a b : list string * list string) : bool :=
   strs_eqb (fst a) (fst b) && strs_eqb (snd a) (snd b).
 
 (** codec stream: [CEnc s o] : to_bytes(s) observed as [o];  [CDec b o] : from_bytes(b) observed as [o] *)
-Inductive codec_case := CEnc (s : text) (o : res bytes) | CDec (b : bytes) (o : res text).
+Inductive codec_case :=
+| CEnc (s : text) (o : res bytes) | CDec (b : bytes) (o : res text)
+| CEncB (b : bytes) (o : res bytes)        (* to_bytes of a bytes object *)
+| CDecS (s : text) (o : res text).         (* from_bytes of a str *)
 Definition codec_check (c : codec_case) : bool :=
   match c with
   | CEnc s o => rbytes_eqb (to_bytes (PStr s)) o
   | CDec b o => rbytes_eqb (from_bytes (PBytes b)) o
+  | CEncB b o => rbytes_eqb (to_bytes (PBytes b)) o
+  | CDecS s o => rbytes_eqb (from_bytes (PStr s)) o
   end.
 
 (** reassembly stream: chunks fed to the parser/target, observed result of close() *)
